@@ -115,6 +115,12 @@ ConcVerdict(r) ==
                THEN V("C04", "reads around a large append are wrong")
         ELSE IF r.kind = "forced-remap-cold" /\ r.again_small # "one" THEN V("C04", "the reader is unusable after reading the large entry: " \o r.again_small)
         ELSE OK
+    ELSE IF r.kind = "read-fault" THEN
+        IF \E i \in 1..Len(r.failed) : Bad(r.failed[i]) THEN V("C04", "a get whose data file cannot be opened panics or hangs")
+        ELSE IF \E i \in 1..Len(r.after) : r.after[i].res # r.after[i].want
+               THEN V("C04", "after gets that failed on the read path, a get hangs, fails or misreads: the ability to serve reads is reduced")
+        ELSE IF r.left > 0 THEN V("drift", "the injected read-path faults were not all consumed")
+        ELSE OK
     ELSE IF r.kind = "forced-merge-vs-get" THEN
         IF ~r.parked THEN V("drift", "the get could not be parked between lookup and read")
         ELSE IF r.get # r.expect THEN V("C04", "a get that overlaps a merge pass fails or misreads: " \o r.get)
